@@ -20,6 +20,7 @@ import (
 	"fmt"
 	"os"
 	"sort"
+	"strings"
 	"time"
 
 	"harness/enga"
@@ -51,31 +52,74 @@ type tstate struct {
 
 type inst struct {
 	st [8]tstate
-	// what the threads last told the package-level defaults of randz (which the library makes
-	// safe for concurrent use: atomically swapped generators, a locked random source); read
-	// and written through shared(), which the race detector does not instrument, so that the
-	// bookkeeping neither reports nor hides anything
-	defStart int64 // UnixNano of the start time last given to SetIdGeneratorStartTime, 0 = the package's own
-	defSet   int   // index of the character set last given to SetStrGeneratorCharSet, -1 = the package's own
+	// the calls that replaced a package-level default of randz (which the library makes safe for
+	// concurrent use: atomically swapped generators, a locked random source), with stamps; kept
+	// through functions the race detector does not instrument, so that the bookkeeping neither
+	// reports nor hides anything
+	sets  [64]setRec
+	nsets int
+	stamp uint64
+}
+
+type setRec struct {
+	kind   int // 0: start time of the default id generator, 1: character set of the default string generator
+	st, en uint64
+	val    int64
 }
 
 //go:norace
-func (x *inst) shared(start *int64, set *int, write bool) {
-	if write {
-		if start != nil {
-			x.defStart = *start
+func (x *inst) tick() uint64 { x.stamp++; return x.stamp }
+
+//go:norace
+func (x *inst) setBegin(kind int, val int64) int {
+	i := x.nsets
+	x.nsets++
+	if i < len(x.sets) {
+		x.stamp++
+		x.sets[i] = setRec{kind, x.stamp, ^uint64(0), val}
+	}
+	return i
+}
+
+//go:norace
+func (x *inst) setEnd(i int) {
+	if i < len(x.sets) {
+		x.stamp++
+		x.sets[i].en = x.stamp
+	}
+}
+
+// allowed: the values a read that ran from stamp st to stamp en may have seen; defOK: also the
+// package's own default; all: the log overflowed, nothing can be said.
+//
+//go:norace
+func (x *inst) allowed(kind int, st, en uint64) (vals []int64, defOK, all bool) {
+	if x.nsets > len(x.sets) {
+		return nil, true, true
+	}
+	defOK = true
+	for i := 0; i < x.nsets; i++ {
+		e := x.sets[i]
+		if e.kind != kind {
+			continue
 		}
-		if set != nil {
-			x.defSet = *set
+		if e.en < st {
+			defOK = false
 		}
-		return
+		if e.st > en {
+			continue
+		}
+		over := false
+		for j := 0; j < x.nsets; j++ {
+			if f := x.sets[j]; f.kind == kind && f.st > e.en && f.en < st {
+				over = true
+			}
+		}
+		if !over {
+			vals = append(vals, e.val)
+		}
 	}
-	if start != nil {
-		*start = x.defStart
-	}
-	if set != nil {
-		*set = x.defSet
-	}
+	return vals, defOK, false
 }
 
 var defSets = []string{randz.CHAR_SET, "abcdef", "xyz0123456789", "αβγδε", "ab\xffc"}
@@ -293,49 +337,69 @@ func (x *inst) Do(t int, op sim.Op) sim.Rec {
 		switch op.K % 6 {
 		case 4:
 			// the package-level defaults, shared by all threads: Id() and String() while another
-			// thread may have just replaced the generator behind them
+			// thread may be replacing the generator behind them.  Every replacing call is
+			// logged with stamps taken before and after it; what a reading call may have seen
+			// is any value whose replacement had not been overwritten, before the read began,
+			// by a later replacement (in the plain build calls never overlap, in the build with
+			// scheduling points inside the package they do).
 			if op.V%3 == 0 {
 				start := time.Now().Add(-time.Duration(1+rng.N(1<<20)) * time.Second).Truncate(time.Millisecond).Add(time.Duration(rng.N(1000)) * time.Microsecond)
-				ns := start.UnixNano()
-				x.shared(&ns, nil, true)
+				h := x.setBegin(0, start.UnixNano())
 				randz.SetIdGeneratorStartTime(start)
+				x.setEnd(h)
 			}
+			st0 := x.tick()
 			before := time.Now()
 			id := randz.Id()
 			after := time.Now()
-			var ns int64
-			x.shared(&ns, nil, false)
-			start := time.Date(2023, 2, 27, 0, 30, 0, 0, time.UTC)
-			if ns != 0 {
-				start = time.Unix(0, ns)
+			vals, defOK, all := x.allowed(0, st0, x.tick())
+			if defOK {
+				vals = append(vals, time.Date(2023, 2, 27, 0, 30, 0, 0, time.UTC).UnixNano())
 			}
 			ms := int64(id) >> 18
-			if lo, hi := before.Sub(start).Milliseconds()-1, after.Sub(start).Milliseconds()+1; id < 0 || ms < lo || ms > hi {
-				fail("Id() = %d carries %d ms; the start time last set (by some thread, in a call that had returned) is %v, %d..%d ms ago", id, ms, start.UTC(), lo, hi)
+			ok := all && id >= 0
+			for _, ns := range vals {
+				start := time.Unix(0, ns)
+				if lo, hi := before.Sub(start).Milliseconds()-1, after.Sub(start).Milliseconds()+1; id >= 0 && ms >= lo && ms <= hi {
+					ok = true
+				}
+			}
+			if !ok {
+				fail("Id() = %d carries %d ms, which is the time since none of the %d start times it may have seen (set by calls that had returned and were not yet replaced, or were running)", id, ms, len(vals))
 			}
 		case 5:
 			if op.V%3 == 0 {
 				k := rng.N(len(defSets))
-				x.shared(nil, &k, true)
+				h := x.setBegin(1, int64(k))
 				randz.SetStrGeneratorCharSet(defSets[k])
+				x.setEnd(h)
 			}
 			n := rng.N(40)
+			st0 := x.tick()
 			str := randz.String(n)
-			var k int
-			x.shared(nil, &k, false)
-			set := map[rune]bool{}
-			for _, c := range defSets[k] {
-				set[c] = true
+			vals, defOK, all := x.allowed(1, st0, x.tick())
+			if defOK {
+				vals = append(vals, 0)
 			}
 			cnt := 0
-			for _, c := range str {
+			for range str {
 				cnt++
-				if !set[c] {
-					fail("String(%d): %q is not in the character set last set (%q)", n, c, defSets[k])
-				}
 			}
 			if cnt != n {
 				fail("String(%d) returned %d runes", n, cnt)
+			}
+			ok := all
+			for _, k := range vals {
+				in := true
+				for _, c := range str {
+					if !strings.ContainsRune(defSets[k], c) {
+						in = false
+					}
+				}
+				ok = ok || in
+			}
+			if !ok {
+				fail("String(%d) = %q: not drawn from any of the %d character sets it may have seen (set by calls that had returned and were not yet replaced, or were running)", n, str, len(vals))
 			}
 		case 0:
 			for i := 0; i < 20; i++ {
@@ -386,27 +450,70 @@ type plainWriter struct{ w *bytes.Buffer }
 
 func (p plainWriter) Write(b []byte) (int, error) { return p.w.Write(b) }
 
+// generated counts the cases generated by this process: the first one is the "first use" run.
+var generated int
+
 func gen(r *sim.Rng, tier string) *sim.Case {
 	c := &sim.Case{Params: map[string]int{"conf": 1}}
+	if os.Getenv("VERIF_CONF_FINE") == "1" {
+		c.Params["conf"] = 2 // the build with scheduling points inside the package
+	}
 	nT := r.Range(2, 3)
 	total := 0
+	first := generated == 0
+	generated++
+	if first {
+		// The first run of a fresh process: every thread goes through every kind of step, each
+		// in a rotation of its own, so that the FIRST use of every entry point of the package
+		// in this process (lazy tables, lazily created defaults, sync.Once bodies) is followed
+		// by uses from other threads.  A replay of this case is the first run of its process too.
+		nT = 3
+		c.Params["first_use"] = 1
+	}
 	for t := 0; t < nT; t++ {
 		n := r.Range(1, 4)
 		var prog []sim.Op
-		for i := 0; i < n; i++ {
-			prog = append(prog, sim.Op{Op: "W", K: r.N(12), V: 1 + r.N(1<<20)})
+		if first {
+			// (steps 5 and 4 are the package-level defaults of randz: all threads begin there,
+			// thread 1 by replacing them, so that the replacement overlaps the very first reads)
+			for _, k := range []int{5, 4} {
+				v := 3*r.N(1<<18) + 1
+				if t == 1 {
+					v = 3 * (1 + r.N(1<<18))
+				}
+				prog = append(prog, sim.Op{Op: "W", K: k, V: v})
+			}
+			rot := []int{0, 4, 2}[t]
+			for i := 0; i < 6; i++ {
+				prog = append(prog, sim.Op{Op: "W", K: (rot + i) % 6, V: 3*r.N(1<<18) + 1}) // (reading only: what the first steps left behind stays visible)
+			}
+			n = 8
+		} else {
+			for i := 0; i < n; i++ {
+				prog = append(prog, sim.Op{Op: "W", K: r.N(12), V: 1 + r.N(1<<20)})
+			}
 		}
 		total += n
 		c.Programs = append(c.Programs, prog)
 	}
 	c.Sched = enga.GenSched(r, nT, total, -1, false)
 	c.Sched.SpinBurn, c.Sched.ClockJumpPct = 0, 0
+	if first && r.Bool() {
+		// first uses in lockstep: a thread is a step or two into its first call when the next
+		// one begins its own
+		c.Sched.Policy, c.Sched.Quanta, c.Sched.Stalls = "lockstep", []int{r.Range(1, 3), r.Range(1, 3), r.Range(1, 3), 1}, nil
+	}
 	c.EnvSeed = r.U64() >> 12
 	return c
 }
 
+// built counts the instances built by this process.
+var built int
+
 func build(c *sim.Case) enga.Instance {
-	if prop == "C20" {
+	built++
+	if prop == "C20" && built > 1 {
+		// (not before the first run of the process: that one meets the package as it starts)
 		// the package-level defaults outlive a run: back to the package's own
 		randz.SetIdGeneratorStartTime(time.Date(2023, 2, 27, 0, 30, 0, 0, time.UTC))
 		randz.SetStrGeneratorCharSet(randz.CHAR_SET)
@@ -425,6 +532,9 @@ func check(run *enga.Run) *sim.Violation {
 		}
 	}
 	run.Out.Probes["threads_with_private_instances_interleaved"]++
+	if run.Case.P("first_use") == 1 {
+		run.Out.Probes["first_run_of_a_fresh_process_(every_entry_point_first_used_by_one_thread,_then_by_others)"]++
+	}
 	return nil
 }
 
